@@ -1,5 +1,5 @@
 From Coq Require Import Extraction ExtrOcamlBasic.
 From Common Require Import Conv Outcome.
 From Gen Require Import Consts C07.
-From C07 Require Import Model.
-Extraction "c07_model.ml" conv_anchor run_history keepf.
+From C07 Require Import Model Shape.
+Extraction "c07_model.ml" conv_anchor run_history keepf reader_shape implemented simple.
